@@ -87,8 +87,10 @@ class Lifting(metaclass=ABCMeta):
 
         else:
             assert not is_active
-            self._negative_lifting_rates.append(-lifting_rate)
-            self._associated_identifiers.append(associated_identifier)
+            # A unit with a vanishing lifting rate must never become the active unit.
+            if lifting_rate < 0.0:
+                self._negative_lifting_rates.append(-lifting_rate)
+                self._associated_identifiers.append(associated_identifier)
 
     @abstractmethod
     def get_active_identifier(self) -> Any:
